@@ -41,7 +41,7 @@ def gen_cases(rng, n):
             c["fill_value"] = -99
         if "arg" in func:
             c["engine"] = "numpy"
-        plan = rng.choice(["eager", "eager", "map-reduce", "cohorts", "blockwise", "auto"])
+        plan = rng.choice(["eager", "eager", "map-reduce", "cohorts", "blockwise", "blockwise", "auto"])
         if "arg" in func and plan == "blockwise":
             plan = "cohorts"
         if plan != "eager":
